@@ -54,8 +54,10 @@ Print Assumptions C02_checker_nonvacuous.
        sheet, the names generate_category_name may invent for it; an EXPLICIT category name must lie outside G and
        differ from "No Response", an explicit bucket name must not be one of the names "Bucket <n>"
        RandomRouter.add_choice invents.  `sheet_names rows` (Comp/RefineFrag.v) is the least such G of a sheet.
-   The FULL statement - (3) dropped - is FALSE of the faithful model: C02_clash_*_refuted below, the finding
-   category-name-clash.  That is why the theorem keeps the suffix _partial. *)
+   Premise (3) is DECIDED by the probed constant explicit_names_claimed (C02_names_decided): on a tree with the repair of
+   the finding category-name-clash it is True of every condition; on a tree without it the statement without (3) is
+   FALSE of the faithful model (C02_clash_*_decided below).  As long as the repair is not in the tree the theorem keeps
+   the suffix _partial. *)
 Theorem C02_compile_refines_rowsem_partial : forall (G : GenNames) fresh,
   (forall a b : nat, fresh a = fresh b -> a = b) -> (forall k, fresh k <> hard_exit_sentinel) ->
   forall validate name rows f ref,
@@ -67,20 +69,31 @@ Theorem C02_compile_refines_rowsem_partial : forall (G : GenNames) fresh,
 Proof. exact @compile_refines_rowsem_partial. Qed.
 Print Assumptions C02_compile_refines_rowsem_partial.
 
-(* the premise on explicit category names cannot be dropped: SwitchRouter.get_or_create_category looks an explicit
-   name up among ALL categories of the router.  Three sheets (a wait_for_response row and two message rows each) that
-   compile and have a meaning, with an input/outcome sequence of the reference flow that NO trace of the compiled flow
-   matches: a category named like the name invented for an earlier test ("yes" -> "Yes"), like the default category
-   ("Other"), like the No Response category.  Replayed on the implementation: findings.d/C02.json. *)
-Theorem C02_clash_generated_name_refuted : not_refined ex_clash_gen.
-Proof. exact clash_generated_name_refuted. Qed.
-Print Assumptions C02_clash_generated_name_refuted.
-Theorem C02_clash_default_name_refuted : not_refined ex_clash_other.
-Proof. exact clash_default_name_refuted. Qed.
-Print Assumptions C02_clash_default_name_refuted.
-Theorem C02_clash_no_response_name_refuted : not_refined ex_clash_noresp.
-Proof. exact clash_no_response_name_refuted. Qed.
-Print Assumptions C02_clash_no_response_name_refuted.
+(* the premise on explicit category names is decided by the probed constant explicit_names_claimed.  On a tree where
+   SwitchRouter.get_or_create_category looks an explicit name up among ALL categories of the router (the finding
+   category-name-clash) the statement without that premise is FALSE: three sheets (a wait_for_response row and two
+   message rows each) compile and have a meaning, with an input/outcome sequence of the reference flow that NO trace of
+   the compiled flow matches - a category named like the name invented for an earlier test ("yes" -> "Yes"), like the
+   default category ("Other"), like the No Response category (replayed on the implementation: findings.d/C02.json).
+   On a tree where an explicit name claims its name (the repair) the first sheet compiles to a flow the verified checker
+   accepts against the reference and the other two are refused - and cname_ok, the premise, is True (C02_names_decided). *)
+Theorem C02_clash_generated_name_decided : if explicit_names_claimed then accepted ex_clash_gen else not_refined ex_clash_gen.
+Proof. exact clash_generated_name_decided. Qed.
+Print Assumptions C02_clash_generated_name_decided.
+Theorem C02_clash_default_name_decided :
+  if explicit_names_claimed then compile std_fresh ex_name ex_clash_other = Err ECatNameTaken else not_refined ex_clash_other.
+Proof. exact clash_default_name_decided. Qed.
+Print Assumptions C02_clash_default_name_decided.
+Theorem C02_clash_no_response_name_decided :
+  if explicit_names_claimed then compile std_fresh ex_name ex_clash_noresp = Err ECatNameTaken else not_refined ex_clash_noresp.
+Proof. exact clash_no_response_name_decided. Qed.
+Print Assumptions C02_clash_no_response_name_decided.
+
+Theorem C02_names_decided : forall (G : GenNames) c,
+  if explicit_names_claimed then @cname_ok G c
+  else @cname_ok G c <-> match c_cname c with [] => @gen_ok G c | nm => ~ @gname G nm /\ nm <> s_NoResponse end.
+Proof. exact @names_decided. Qed.
+Print Assumptions C02_names_decided.
 
 (* decided for the code of this run: where does it read rows as the reference does?  With the repairs a05766f and
    f02a865 (and the has_group repair of NoOpNodeGroup.add_exit, a candidate patch) everywhere; before them only
